@@ -3,10 +3,18 @@ package main
 func init() {
 	register(&PropSpec{
 		ID:          "C01",
-		Explanation: "Decides structural clauses of 'log queries return exactly the matching lines' for all inputs: stage classes (LP-CLASS), rejected lines never flow on (LP-DROP).",
-		Decided:     []string{"LP-CLASS", "LP-DROP"},
-		NotDecided:  []string{"library semantics of strings.Contains/regexp/netip"},
-		Technique:   "SSA typestate/summary analysis of Processor implementations (line/keep contract), enum-table chain extraction",
+		Explanation: "Decides the structural clauses behind 'log queries return exactly the matching lines' for all record sets, queries and storage capabilities: every stage processor obeys its class of the line/keep contract, a rejected record never flows on, the parser maps each filter/matcher spelling to the operator it denotes and the engine builds the matcher that implements it, and/or/not compose as Boolean connectives, filters handed to the storage are re-evaluated by the engine, and each record goes through prefilter and pipeline once.",
+		Decided: []string{
+			"LP-CLASS: each of the Processor implementers is in the class the table assigns (filter: line unchanged, keep = predicate; parser/rewriter: never drops; pipeline/and/or: composite); LP-BUILD: every pipeline stage type is built into a processor of its class",
+			"LP-DROP: wherever a Process result is used, the line of a rejected record is never used on a path where keep is false",
+			"CH-OP/CH-MAP/CH-ARGORDER: the parser's token->operator switches and the engine's operator->matcher builders are the relations the LogQL grammar defines (negated forms wrap the positive matcher in NotMatcher); matcher bodies compare (label value, literal) in this order",
+			"FE-BOOL: AndLabelMatcher / OrLabelMatcher truth tables (Or evaluates the right side on the original line); PV-PAIR: label filters read the label they were built for",
+			"LP-OFFLOAD/PV-WHOLE: only line filters that are not ip() and that the storage supports are offloaded, the scan stops at the first stage that may rewrite the line, and the engine still builds its own pipeline from the whole stage list",
+			"LP-PIPE/PV-ONCE/PV-ORDER: Pipeline.Process runs every stage in order on the previous stage's line and stops only on a drop; entryIterator.Next applies SetFromRecord -> prefilter(record.Body) -> pipeline(prefilter line), emits only under both keeps with the record's timestamp and the pipeline's line; groupEntries appends every entry once",
+			"CH-EXH/ERR-NILNIL: buildStage / buildLabelPredicate handle every stage and predicate type or fail; no builder returns (nil, nil)",
+		},
+		NotDecided: []string{"library semantics of strings.Contains / regexp / netip", "distinct (not implemented by the engine)", "that the storage evaluates offloaded filters correctly (the engine re-checks them, so only completeness of the storage matters: C02)"},
+		Technique:  "SSA summary/typestate analysis of the Processor implementers (line/keep contract), enum-table chain extraction over feasible paths from parser tokens to built matchers, finite-case truth tables, dominance and path rules on the offload scan and the per-record pipeline",
 		Rules: func(r *Run) {
 			ruleLPClass(r, nil)
 			ruleLPDrop(r)
@@ -16,6 +24,10 @@ func init() {
 			ruleMatcherBodies(r)
 			ruleAndOr(r)
 			ruleLPOffload(r)
+			ruleMatcherLoop(r)
+			ruleValueStrGuarded(r)
+			ruleDockerMatch(r)
+			ruleFetchContainers(r)
 			ruleLPPipe(r)
 			ruleGroupEntries(r)
 			ruleTypeSwitchExhaustive(r, enginePkg, "", "buildStage", logqlPkg, "PipelineStage", 13, false)
